@@ -57,6 +57,29 @@ V = [
          new="    self.pending_ops.push(PendingOp::Add {\n      doc_id: doc_id.clone(),\n      doc: doc.clone(),\n    });\n    self.wal.append_add_doc(doc)?;", key="R03.e"),
     dict(name="keep-c03-cleanup-in-ok-arm", pid="C03", kind="keep", file=W,
          old="      if manifest_restored && !new_segments.is_empty() {", new="      if !new_segments.is_empty() && manifest_restored {", key=""),
+    # ---- C04
+    dict(name="c04-no-deleted-test-in-scan", pid="C04", kind="break", file="searchlite-core/src/api/reader.rs",
+         old="      let doc_id = raw as DocId;\n      if seg.is_deleted(doc_id) {\n        continue;\n      }\n", new="      let doc_id = raw as DocId;\n", key="R04.c"),
+    dict(name="c04-publish-from-delete", pid="C04", kind="break", file=W,
+         old="    let _guard = self.inner.writer_lock.lock();\n    for id in doc_ids {",
+         new="    let _guard = self.inner.writer_lock.lock();\n    self.inner.manifest.write().committed_at.clear();\n    for id in doc_ids {", key="R04.a"),
+    dict(name="c04-compact-copies-deleted", pid="C04", kind="break", file=IDX,
+         old="        if seg.is_deleted(doc_id) {\n          return None;\n        }\n", new="", key="R04.c"),
+    # ---- C05
+    dict(name="c05-rollback-unlocked", pid="C05", kind="break", file=W,
+         old="  pub fn rollback(&mut self) -> Result<()> {\n    let _guard = self.inner.writer_lock.lock();\n", new="  pub fn rollback(&mut self) -> Result<()> {\n", key="R05.a"),
+    dict(name="c05-snapshot-before-lock", pid="C05", kind="break", file=W,
+         old="    let inner = self.inner.clone();\n    let _guard = inner.writer_lock.lock();\n    if self.pending_ops.is_empty() {\n      return Ok(());\n    }\n    self.wal.sync()?;\n    let manifest_snapshot = inner.manifest.read().clone();\n",
+         new="    let inner = self.inner.clone();\n    let manifest_snapshot = inner.manifest.read().clone();\n    let _guard = inner.writer_lock.lock();\n    if self.pending_ops.is_empty() {\n      return Ok(());\n    }\n    self.wal.sync()?;\n", key="R05.a"),
+    dict(name="c05-guard-dropped-early", pid="C05", kind="break", file=W,
+         old="    self.pending_ops.clear();\n    self.wal.truncate()?;\n    Ok(())", new="    self.pending_ops.clear();\n    drop(_guard);\n    self.wal.truncate()?;\n    Ok(())", key="R05.a"),
+    dict(name="c05-cache-without-generation-test", pid="C05", kind="break", file=W,
+         old="    let mut live_docs = if manifest_generation == self.live_generation {", new="    let mut live_docs = if manifest_generation == self.live_generation || !self.live_docs.is_empty() {", key="R05.b"),
+    # ---- C06
+    dict(name="c06-revert-lock-fix", pid="C06", kind="break", revert="a7e0b2e", key="R06.a"),
+    dict(name="c06-reader-rereads-storage", pid="C06", kind="break", file="searchlite-core/src/index/segment.rs",
+         old="  pub fn postings(&self, term: &str) -> Option<PostingsReader> {\n",
+         new="  pub fn postings(&self, term: &str) -> Option<PostingsReader> {\n    let _ = crate::storage::FsStorage::new(std::path::PathBuf::from(&self.meta.paths.postings)).exists(Path::new(&self.meta.paths.postings));\n", key="R06.b"),
     # behaviour-preserving
     dict(name="keep-c01-extract-persist", pid="C01", kind="keep", file=W,
          old="    if let Err(e) = (|| -> Result<()> {\n      new_manifest.store(self.inner.storage.as_ref(), &manifest_path)?;\n      self.wal.append_commit()?;\n      self.wal.sync()?;\n      Ok(())\n    })() {",
